@@ -2,6 +2,7 @@ use std::any::type_name;
 use std::borrow::Borrow;
 use std::fmt;
 use std::ops::Deref;
+use std::panic::{AssertUnwindSafe, catch_unwind, resume_unwind};
 use std::pin::Pin;
 use std::ptr::NonNull;
 use std::sync::{Arc, Mutex};
@@ -209,10 +210,20 @@ impl Drop for Remover {
     fn drop(&mut self) {
         let mut pool = self.pool.lock().expect(NEVER_POISONED);
 
+        // AssertUnwindSafe: removal runs the object's destructor, which is user code and may
+        // panic. The pool completes its bookkeeping before the destructor runs, so we drop the
+        // guard cleanly (instead of poisoning the pool for every other handle) and re-throw
+        // the user's panic without tampering.
+        //
         // SAFETY: The remover controls the shared object lifetime and is the only thing
         // that can remove the item from the pool.
-        unsafe {
+        let result = catch_unwind(AssertUnwindSafe(|| unsafe {
             pool.remove(self.handle);
+        }));
+        drop(pool);
+
+        if let Err(payload) = result {
+            resume_unwind(payload);
         }
     }
 }
